@@ -7,3 +7,7 @@ pub mod uf;
 #[cfg(kani)]
 #[path = "../../common/stubs.rs"]
 pub mod stubs;
+#[cfg(kani)]
+mod c01_programs;
+#[cfg(kani)]
+mod c01_probe;
